@@ -352,7 +352,15 @@ func (tr *Addition) Add(write func(w *Writer) error) error {
 		return ErrLockFailure
 	}
 
-	if err := tr.stack.checkAddition(tab.Name()); err != nil {
+	// Validate against the stack as it will be once the tables added
+	// earlier in this transaction are committed too.
+	view, done, err := tr.view()
+	if err != nil {
+		return err
+	}
+	err = tr.stack.checkAdditionAgainst(tab.Name(), view)
+	done()
+	if err != nil {
 		return err
 	}
 
@@ -409,7 +417,51 @@ func (tr *Addition) Commit() error {
 	return tr.stack.reload(true)
 }
 
+// view returns the merged stack including the tables this transaction has
+// added so far, and a function releasing it.
+func (tr *Addition) view() (Table, func(), error) {
+	if len(tr.newTables) == 0 {
+		return tr.stack.Merged(), func() {}, nil
+	}
+	var tabs []Table
+	for _, r := range tr.stack.stack {
+		tabs = append(tabs, r)
+	}
+	var opened []*Reader
+	done := func() {
+		for _, r := range opened {
+			r.Close()
+		}
+	}
+	for _, nm := range tr.newTables {
+		bs, err := NewFileBlockSource(filepath.Join(tr.stack.reftableDir, nm))
+		if err != nil {
+			done()
+			return nil, nil, err
+		}
+		rd, err := NewReader(bs, nm)
+		if err != nil {
+			bs.Close()
+			done()
+			return nil, nil, err
+		}
+		opened = append(opened, rd)
+		tabs = append(tabs, rd)
+	}
+	m, err := NewMerged(tabs, tr.stack.cfg.HashID)
+	if err != nil {
+		done()
+		return nil, nil, err
+	}
+	m.suppressDeletions = true
+	return m, done, nil
+}
+
 func (s *Stack) checkAddition(tabname string) error {
+	return s.checkAdditionAgainst(tabname, s.Merged())
+}
+
+func (s *Stack) checkAdditionAgainst(tabname string, view Table) error {
 	if s.cfg.SkipNameCheck {
 		return nil
 	}
@@ -440,7 +492,7 @@ func (s *Stack) checkAddition(tabname string) error {
 		recs = append(recs, rec)
 	}
 
-	return validateRefRecordAddition(s.Merged(), recs)
+	return validateRefRecordAddition(view, recs)
 }
 
 // non-deterministic random generator.
